@@ -433,6 +433,24 @@ def dataset_rule(ctx: Ctx):
             else:
                 # the kind of loss is part of the finding's identity: a different loss on the same kind is a new finding
                 ctx.refuted("R18.2", f"{site}::{cat}", bad, where=where(fi, fi.node))
+    # the list of files in another legal form (tuple, one-shot iterator, Path objects): the same datasets
+    for form, src in (("tuple", "('fileB', 'fileA')"), ("one-shot iterator", "iter(['fileB', 'fileA'])"), ("generator expression", "(f for f in ['fileB', 'fileA'])"),
+                      ("Path objects", "[Path('fileB'), Path('fileA')]")):
+        site = f"{fi.key}::files given as {form}"
+        rec = Rec()
+        h = Harness(prog, rec.ext({}), max_steps=2_000_000)
+        try:
+            d = build(h)
+            _SEQ.clear()
+            fb = packets_for(2047, [0]) + packets_for(3, [0]) + packets_for(0, [1])
+            streams = {"fileA": packets_for(3, [0, 1]) + packets_for(2047, [1]) + packets_for(3, [1]), "fileB": fb}
+            h.it.ext["XtcePacketDefinition.packet_generator"] = lambda selfv, f, **kw: [p for n in files_of(f) for p in streams[n]]
+            k, got = h.outcome(f"create_dataset({src}, d)", XR, d=d)
+            rows = {a: len(ds.attrs["data_vars"]["U8"][1].attrs["__array__"]) for a, ds in got.items()} if k == "ok" and isinstance(got, dict) else None
+            ctx.decide(rows == {0: 1, 3: 4, 2047: 2}, "R18.4", site, "same rows", f"create_dataset with the files given as a {form}: "
+                       f"{'raises ' + str(got) if k != 'ok' else 'rows per APID ' + str(rows)}; the list form gives {{0: 1, 3: 4, 2047: 2}}", where=where(fi, fi.node))
+        except (Unsupported, KeyError, AttributeError) as e:
+            ctx.unknown("R18.4", site, str(e))
     # generator options given by the caller reach the generator for EVERY file (and nothing else does)
     rec = Rec()
     h = Harness(prog, rec.ext({}), max_steps=2_000_000)
@@ -588,7 +606,8 @@ SPEC = PropSpec(
                  "the order given, one variable per parameter, ValueError on a field-set mismatch. numpy's conversion of "
                  "any particular value is the checker's table, not numpy itself."
                  ' The generator must be called once per file (files glued into one byte stream are a violation) and a field-set mismatch must be rejected in every order (subset first, superset first, extra field, renamed field).'
-                 ' Generator options given by the caller reach the generator for every file; files have first bytes (a legal identification word equal to the gzip magic) and gzip.open fails on them.'),
+                 ' Generator options given by the caller reach the generator for every file; files have first bytes (a legal identification word equal to the gzip magic) and gzip.open fails on them.'
+                 ' Rows: APIDs 0, 3 and 2047 whose sequence counts wrap and restart (stream order, not counter order); numpy sorting/indexing helpers are modelled.'),
     rule_doc="R18.1 per encoding spelling over all widths; R18.2 per (mode, parameter kind); R18.4 accumulation and mismatch",
     assumptions=["numpy: (u)intN capacity, float16/32 rounding, S/U dtypes strip trailing NULs, dtype=None infers a lossless dtype"],
     mutants=mutants,
